@@ -159,7 +159,7 @@ def egressBucket (q : QoS) : Bucket :=
   { tokens := burst.toUInt64, last := 0, rate := q.down, burst := burst, prio := q.prio }
 
 def ingressBucket (q : QoS) : Bucket :=
-  let burst := defaultBurst q.up
+  let burst := if q.burst = 0 then defaultBurst q.up else q.burst
   { tokens := burst.toUInt64, last := 0, rate := q.up, burst := burst, prio := q.prio }
 
 /-- `SetSubscriberQoS` for an IPv4 address -/
@@ -285,8 +285,11 @@ structure Mon where
   /-- refill loss accumulated over the window that attains `v` -/
   l : Nat := 0
   maxPkt : Nat := 0
+  /-- time of the first offer of the current stretch of offers that are ALL larger than the burst -/
+  over : Option Nat := none
   firedOver : Bool := false
   firedStarve : Bool := false
+  firedOversize : Bool := false
 deriving Repr
 
 def Mon.new (rate burst : Nat) : Mon := { rate := rate, burst := burst }
@@ -303,11 +306,13 @@ def Mon.step (m : Mon) (t len : Nat) (admitted : Bool) : Mon × List (String × 
     -- first arrival: the only window is [1..1]
     let w := a
     let vs := if w > m.burst * SCALE then [("over-admit", "none", s!"first packet of {len} bytes admitted with burst {m.burst}")] else []
-    ({ m with prev := some (t, len), w := w, v := none, l := 0, maxPkt := maxPkt, firedOver := !vs.isEmpty }, vs)
+    ({ m with prev := some (t, len), w := w, v := none, l := 0, maxPkt := maxPkt, firedOver := !vs.isEmpty,
+              over := if len > m.burst then some t else none }, vs)
   | some (pt, plen) =>
     if t < pt then
       -- the clock ran backwards: outside the property's hypotheses, restart the windows here
-      ({ m with prev := some (t, len), w := a, v := none, l := 0, maxPkt := maxPkt }, [])
+      ({ m with prev := some (t, len), w := a, v := none, l := 0, maxPkt := maxPkt,
+                over := if len > m.burst then some t else none }, [])
     else
     let g := t - pt
     let w := a + (m.w - m.rate * g)
@@ -332,8 +337,18 @@ def Mon.step (m : Mon) (t len : Nat) (admitted : Bool) : Mon × List (String × 
         let clause := if decide (x + ((m.burst * SCALE + l : Nat) : Int) ≥ 0) then "D52" else "none"
         [("starved", clause, s!"backlogged window served {(-x) / (SCALE : Int)} bytes less than rate*window (allowed slack {m.burst + maxPkt}); refill loss {l / SCALE} bytes (rate {m.rate} burst {m.burst})")]
       else []
-    ({ m with prev := some (t, len), w := w, v := v, l := l, maxPkt := maxPkt,
-              firedOver := m.firedOver || over, firedStarve := m.firedStarve || starved }, vsO ++ vsS)
+    -- a subscriber whose every offer exceeds the burst: the window (start, t] has served nothing; the property's
+    -- bound fails as soon as rate*window exceeds burst + maxPkt (finding KF-qos-burst-lt-pkt: another cause than D52)
+    let ovStart : Option Nat := if len > m.burst then some (m.over.getD t) else none
+    let oversized := match ovStart with
+      | some s => !admitted && decide ((t - s) * m.rate > (m.burst + maxPkt) * SCALE)
+      | none => false
+    let vsZ := if oversized && !m.firedOversize then
+        [("starved", "KF-qos-burst-lt-pkt", s!"every packet offered since t={ovStart.getD t} is larger than the burst ({len} > {m.burst}): nothing served in {t - ovStart.getD t} ns at rate {m.rate}")]
+      else []
+    ({ m with prev := some (t, len), w := w, v := v, l := l, maxPkt := maxPkt, over := ovStart,
+              firedOver := m.firedOver || over, firedStarve := m.firedStarve || starved,
+              firedOversize := m.firedOversize || oversized }, vsO ++ vsS ++ vsZ)
 
 /-! ## windows of an always-backlogged subscriber (lower bound of the property) -/
 
